@@ -110,7 +110,7 @@ def h_structural(E):
 
 HARNESSES = [
     H('H-check', h_check, quick=[(1, 0, 0), (2, 0, 0), (2, 1, 0), (2, 0, 1), (2, 0, 2), (2, 0, 3), (3, 0, 0), (3, 1, 0)],
-      thorough=[(n, x, v) for n in (1, 2, 3) for x in (0, 1) for v in (0, 1, 2, 3)] + [(4, 0, 0)],
+      thorough=[(n, x, v) for n in (1, 2, 3) for x in (0, 1) for v in (0, 1, 2)] + [(4, 0, 0), (1, 0, 3), (2, 0, 3), (2, 1, 3), (3, 0, 3)],
       float_model='R',
       cover=['refused: duplicated row', 'refused: VV next to a non-detection', 'accepted: coincident stamps on two ceilometers',
              'accepted: repeated index labels'],
